@@ -160,7 +160,9 @@ class Type3Tag(nfc.tag.Tag):
                 data = self._tag.read_from_ndef_service(0)
             except Type3TagCommandError:
                 return None
+            return self._unpack_attribute_data(data)
 
+        def _unpack_attribute_data(self, data):
             if sum(data[0:14]) != unpack(">H", data[14:16])[0]:
                 log.debug("ndef attribute data checksum error")
                 return None
@@ -235,7 +237,12 @@ class Type3Tag(nfc.tag.Tag):
             return data
 
         def _write_ndef_data(self, data):
-            attributes = self._read_attribute_data()
+            # A command error is not hidden here, it shall tell the
+            # caller why the ndef data could not be written.
+            attribute_data = self._tag.read_from_ndef_service(0)
+            attributes = self._unpack_attribute_data(attribute_data)
+            if attributes is None:
+                raise Type3TagCommandError(nfc.tag.PROTOCOL_ERROR)
             attributes['writef'] = 0x0F
             self._write_attribute_data(attributes)
 
